@@ -16,7 +16,7 @@ svars == <<vars, hist, np>>
 
 SInit == /\ Init
          /\ \E h \in HiBits :
-               hist = [start |-> tst, err |-> terr, target |-> target, d |-> <<>>, ep |-> 0, hi |-> h]
+               hist = [start |-> tst, err |-> terr, target |-> target, d |-> <<>>, ep |-> 0, hi |-> h, am |-> 0]
          /\ np = 0
 
 CanAct == outcome = "none" /\ started /\
@@ -24,8 +24,11 @@ CanAct == outcome = "none" /\ started /\
 
 SNext == IF CanAct
          THEN /\ \/ \E d \in 0 .. K :
-                       /\ MAck(d) \/ \E s \in States : MRequest(s, d)
-                       /\ hist' = [hist EXCEPT !.d = Append(@, d)]
+                       \/ /\ \E s \in States : MRequest(s, d)
+                          /\ hist' = [hist EXCEPT !.d = Append(@, d)]
+                       \/ \E early \in BOOLEAN :       \* am: how the terminal takes the acknowledgement
+                             /\ MAck(d, early)
+                             /\ hist' = [hist EXCEPT !.d = Append(@, d), !.am = IF early THEN 1 ELSE 0]
                  \/ (MReturn \/ MRaise) /\ UNCHANGED hist
               /\ UNCHANGED np
          ELSE /\ np' = np + 1
